@@ -124,7 +124,9 @@ func normalizeHeaderValue(field, value string) string {
 		return normalizeOrderInsensitive(value)
 
 	case hasNormalizationHeader(normalizationHeader.byCaseInsensitive, field):
-		return strings.ToLower(value)
+		// ASCII letters only: strings.ToLower rewrites bytes that are not valid
+		// UTF-8 to U+FFFD and folds "K" (U+212A) to "k", merging different values.
+		return asciiLower(value)
 
 	case hasNormalizationHeader(normalizationHeader.byTimeInsensitive, field):
 		return strings.TrimSpace(value)
@@ -132,7 +134,7 @@ func normalizeHeaderValue(field, value string) string {
 	case field == "Authorization":
 		parts := strings.SplitN(value, " ", 2)
 		if len(parts) == 2 {
-			return strings.ToLower(parts[0]) + " " + parts[1]
+			return asciiLower(parts[0]) + " " + parts[1]
 		}
 		return value
 
